@@ -42,3 +42,13 @@ Theorem C04_refuted_truth_retest :
   obs_same (run_inst 40 h_truth_retest a_truth_retest false w_truth_retest) (run_ref 40 h_truth_retest a_truth_retest false w_truth_retest) = false.
 Proof. exact w_truth_retest_deviates. Qed.
 Print Assumptions C04_refuted_truth_retest.
+
+(* events are reported in execution order and what was reported is never dropped, rewritten or reordered: a run only
+   appends to the log of deliveries (for arbitrary analyses; reference semantics, and the instrumented program) *)
+Theorem C04_delivery_log_only_grows :
+  forall (D : data) (analyses : list (analysis (Sem.earg (d_val D)))) (modpath : string)
+         (H : list string) (p : program) (fuel : nat) (s : state D),
+    src_prog p = true ->
+    exists d, deliveries D (ref_run D analyses modpath H fuel p s) = (dels (eng s) ++ d)%list.
+Proof. exact reference_log_grows. Qed.
+Print Assumptions C04_delivery_log_only_grows.
